@@ -5,6 +5,7 @@
 use super::mailbox;
 use crate::internal::left_right;
 use papaya::HashMap;
+use parking_lot::Mutex;
 use std::fmt;
 use std::hash::Hash;
 use std::sync::{
@@ -47,6 +48,9 @@ where
   /// Number of sender handles that are neither closed nor dropped. Only the
   /// close/drop of the last one disconnects the receivers.
   pub(crate) sender_count: AtomicUsize,
+  /// Every mailbox of the channel, subscribed or not, so that the last sender can
+  /// disconnect receivers that currently have no subscription.
+  pub(crate) mailboxes: Mutex<Vec<Weak<mailbox::MailboxProducer<(K, T)>>>>,
 }
 
 impl<K, T> fmt::Debug for SpmcTopicDispatcher<K, T>
@@ -80,6 +84,24 @@ where
       receiver_count: AtomicUsize::new(0),
       // `channel`/`channel_async` create exactly one sender handle.
       sender_count: AtomicUsize::new(1),
+      mailboxes: Mutex::new(Vec::new()),
+    }
+  }
+
+  /// Records a receiver's mailbox (and forgets mailboxes whose receiver is gone).
+  pub(crate) fn register_mailbox(&self, mailbox: &Arc<mailbox::MailboxProducer<(K, T)>>) {
+    let mut all = self.mailboxes.lock();
+    all.retain(|w| w.strong_count() > 0);
+    all.push(Arc::downgrade(mailbox));
+  }
+
+  /// Disconnects every mailbox of the channel. Called by the last open sender handle.
+  pub(crate) fn disconnect_all(&self) {
+    let all = self.mailboxes.lock();
+    for mailbox_weak in all.iter() {
+      if let Some(mailbox_strong) = mailbox_weak.upgrade() {
+        mailbox_strong.disconnect();
+      }
     }
   }
 }
